@@ -63,3 +63,37 @@ class Engine(DbEngine):
                            detail='the deletion request was accepted (%s) and the event it covers is retrievable when all submitters have returned' % resp.get('%d.0' % meta['dreq_thread']),
                            outcome='retrievable')
         return Verdict(outcome='race-ok' if accepted else 'race-refused', nontrivial=True)
+
+    # identifiers that contain colons: the address in an a tag is kind:author:identifier, and only the first two colons
+    # separate; neighbours whose identifier is a prefix up to a colon must stay untouched
+    def generate(self, rng, tier):
+        from dbgen import addr_str, fake_id, AUTHORS
+        out = super().generate(rng, tier)
+        for i in range(10 if tier == 'quick' else 200):
+            sub = random.Random(rng.getrandbits(64))
+            g = HistGen(sub, {'new': 2, 'addr': 1}, sub.choice([0, 2])).run()
+            a = sub.choice(AUTHORS)
+            kind = sub.choice([30023, 30000, 39999])
+            full = sub.choice([b'chat:general', b'a:b:c', b':', b'x:', b':x', b'30023:' + a.hex().encode() + b':x', b'chat::'])
+            cut = full.split(b':')[0]
+            longer = full + sub.choice([b':more', b'x'])
+            evs = []
+            for d, t in ((full, 100), (cut, 101), (longer, 102)):
+                e = g.new_event(kind=kind, pk=a, created=t, tags=[[b'd', d]])
+                e['content'] = b'at ' + d
+                e['id'] = fake_id(e)
+                g.op_store(e)
+                g.note_addr(kind, a, d)
+                evs.append(e)
+            req = g.new_event(kind=5, pk=a, created=200, tags=[[b'a', addr_str(kind, a, full)]])
+            g.op_store(req)
+            # afterwards: an older event at the deleted address is refused, at the neighbours accepted
+            for d, t in ((full, 150), (cut, 150), (longer, 150), (full, 250)):
+                e = g.new_event(kind=kind, pk=a, created=t, tags=[[b'd', d]])
+                e['content'] = b'later at ' + d
+                e['id'] = fake_id(e)
+                g.op_store(e)
+            if sub.random() < 0.4:
+                g.ops.append((sub.choice(['reopen', 'rebuild']),))
+            out.append(('colon-identifier', g.render()))
+        return out
